@@ -299,8 +299,8 @@ Definition cancelled (k : ctxkind) (s : dstate) : Prop :=
 Definition do_ok (k : ctxkind) (r : do_result) : bool :=
   match r with
   | DoErr (CtxErr k') => N.eqb (ctx_code k') (ctx_code k)
-  | DoErr (Coded c) => N.eqb c (ctx_code k)
-  | DoErr _ => false
+  | DoErr (Coded c) => N.eqb c (ctx_code k)      (* an HTTPClient that returns a coded *connect.Error of its own *)
+  | DoErr _ => true                               (* any other failure (the context's cause, a closed connection, ...): makeRequest asks the context *)
   | DoResp None false => true
   | DoResp _ _ => false
   end.
@@ -341,6 +341,8 @@ Proof.
     + apply N.eqb_eq in O. subst c. destruct D as [-> | ->]; auto.
     + assert (ctx_code k2 = ctx_code k) as E by (apply N.eqb_eq; exact O). rewrite E.
       destruct D as [-> | ->]; auto.
+    + destruct D as [-> | ->]; cbn; auto.
+    + destruct D as [-> | ->]; cbn; auto.
     + auto.
   - destruct rt; cbn; [|auto]. destruct rd; cbn; auto.
   - destruct wt; cbn; [|auto]. destruct D as [-> | ->]; cbn; auto.
